@@ -40,7 +40,7 @@ def cases(tier, seed):
                            n=2001 if tier == 'quick' else 8001)
     yield dict(kind='invalid')
     for neg in (None, -1, -30, -5000):
-        for cont in ('fcs', 'array', 'fcs-list', 'array-list', 'fcs-1d', 'fcs-list-rev', 'array-list-rev', 'fcs-list3', 'array-list3'):
+        for cont in ('fcs', 'array', 'fcs-list', 'array-list', 'fcs-1d', 'fcs-list-rev', 'array-list-rev', 'fcs-list3', 'array-list3', 'rfi', 'shifted'):
             yield dict(kind='derive', neg=neg, cont=cont, dt='F')
             yield dict(kind='derive', neg=neg, cont=cont, dt='D')
     yield dict(kind='axis')
@@ -148,6 +148,17 @@ def make_data(neg, which=0, dt='F'):
     return FlowCal.io.FCSData(p), ranges
 
 
+def rfi_sample():
+    import FlowCal
+    rows = [[5, 100, 7], [900, 200, 3000], [17, 40, 1], [1000, 12, 4000], [0, 0, 0]]
+    lay = dict(datatype='I', bits=[16] * 3, ranges=[1024, 256, 4096], pne=['4,1', '2.5,0', '3,0.5'], byteord='1,2,3,4', events=rows)
+    buf, _ = fcsgen.build(lay)
+    p = os.path.join(scratch(), 'c18_rfi.fcs')
+    with open(p, 'wb') as f:
+        f.write(buf)
+    return FlowCal.transform.to_rfi(FlowCal.io.FCSData(p))
+
+
 def run_derive(c, res):
     import FlowCal
     L = FlowCal.plot._LogicleTransform
@@ -172,6 +183,15 @@ def run_derive(c, res):
                 chan = 'CH%d' % (ch + 1)
             elif cont == 'array-list':
                 data, cols, rng = [a0, a1], [a0[:, ch], a1[:, ch]], [None, None]
+                chan = ch
+            elif cont in ('rfi', 'shifted'):
+                # samples whose range does not start at 0: RFI of a log amplifier ([1, 10**a0*(r-1)/r]); background-subtracted data
+                if cont == 'rfi':
+                    data = rfi_sample()
+                else:
+                    data = FlowCal.transform.transform(d0, [0, 1, 2], lambda x: x - 100.0)
+                arr_ = np.array(data.view(np.ndarray), dtype=float)
+                cols, rng = [arr_[:, ch]], [data.range(ch)[1]]
                 chan = ch
             elif cont == 'fcs-list-rev':          # the most negative event is NOT in the last sample
                 data, cols, rng = [d1, d0], [a1[:, ch], a0[:, ch]], [ranges[ch] - 1] * 2
